@@ -9,10 +9,10 @@ git -C /repo worktree add -q --detach $W HEAD || exit 3
 git -C $W apply $d/patch.diff || exit 3
 for c in $id "$@"; do
   start=$(date +%s)
-  out=$(cd /verif && VERIF_REPO=$W VERIF_NPROC=${VERIF_NPROC:-12} ./run_check.sh $c ${TIER:-quick} 2>&1); rc=$?
+  out=$(cd /verif && VERIF_OUT=/dev/shm/seedout VERIF_REPO=$W VERIF_NPROC=${VERIF_NPROC:-12} ./run_check.sh $c ${TIER:-quick} 2>&1); rc=$?
   end=$(date +%s)
   keys=$(echo "$out" | grep "^VIOLATION" | grep -o "key=[^ ]*" | sort -u | head -4 | tr '\n' ' ')
   echo "SEED ${id}c check=$c exit=$rc secs=$((end-start)) $keys"
   [ $rc -ne 1 ] && echo "$out" | grep -v "^WARNING\|^KNOWN" | tail -3
 done
-git -C /repo worktree remove --force $W; rm -rf $W
+git -C /repo worktree remove --force $W; rm -rf $W /dev/shm/seedout
